@@ -339,11 +339,17 @@ def check_general(case, out):
         n2 = float(sum(a * a for a in dC))
         if abs(val) > 1e-5 * (1 + n2) * max(1.0, dret):
             out.fail("not-stationary", klass, f"returned interior parameter {t}: <C', C-P> = {val!r} (|C'|^2 = {n2!r})")
-    # measured, not asserted: is there a strictly closer point on a dense sampling?
-    best = min(sum((x - y) ** 2 for x, y in zip(oracle.ceval(ref, ref.U[0] + (ref.U[-1] - ref.U[0]) * F(i, 64)), q))
-               for i in range(65))
-    if math.sqrt(float(best)) < dret - 1e-4:
-        out.cls("local-not-global(measured)")
+    # "that distance is the minimum": a dense exact sampling (16 points per span, knots included) must not contain
+    # a clearly closer point (curved pieces: 1e-4, relative for large distances)
+    samples = []
+    for lo, hi in zip(bk[:-1], bk[1:]):
+        samples += [lo + (hi - lo) * F(i, 16) for i in range(17)]
+    best, ubest = min((sum((x - y) ** 2 for x, y in zip(oracle.ceval(ref, u), q)), u) for u in samples)
+    jump = any(oracle.mult(ref.U, z) > ref.p for z in bk[1:-1])  # with a jump the minimum need not be attained (FA-9)
+    if not jump and math.sqrt(float(best)) < dret - 1e-4 * max(1.0, dret):
+        out.fail("not-nearest", klass + ";curved",
+                 f"point_on_curve({tuple(map(float, q))}) on U={list(map(float, ref.U))} P={[tuple(map(float, p)) for p in ref.P]} "
+                 f"w={ref.w} returned {ts} at distance {dret!r}, but C({float(ubest)}) is at distance {math.sqrt(float(best))!r}")
 
 
 FACETS = [
